@@ -396,6 +396,10 @@ def run(ctx, report):
     else:
         R6.ok('eval_ExprCompose:constant-slice-piece:n/a', nontrivial=False)
 
+    # eval_ExprCompose, evaluated on compositions of constant pieces with at most one conditional piece (every position of the
+    # conditional piece, constant slices included): the folded value must be the concatenation of the pieces
+    compose_fold_rule(R6, ea, ec)
+
     # ---------------------------------------------------------------- D7 writer's and reader's key of a memory cell agree
     R7 = report.rule('C06.D7', 'memory cells are stored under the (simplified) address they are looked up with', floor=2)
     em = methods.get('eval_ExprMem')
@@ -715,6 +719,95 @@ def run(ctx, report):
                 R5.ok(inst, sample="'parity': eval_abs.parity and expression_helper.parity both count the bits of operand & 0xFF")
         else:
             R5.ok(inst + ':not-judged', nontrivial=False)
+
+
+def compose_fold_rule(R, ea, ec):
+    from ..consteval import Evaluator as _Ev, NotConst as _NC, Obj as _Obj, Native as _Nat, PyRaise as _PR
+
+    class Kind(_Nat):
+        def __init__(self, k, fn):
+            _Nat.__init__(self, fn)
+            self.k = k
+
+    def mk(kind, **kw):
+        o = _Obj(kind)
+        o.__dict__['_kind'] = kind
+        for k, v in kw.items():
+            setattr(o, k, v)
+        return o
+
+    def isinst(o, k):
+        k = k.k if isinstance(k, Kind) else k
+        return isinstance(o, _Obj) and o.__dict__.get('_kind') == k
+    env = {'isinstance': _Nat(isinst)}
+    env['ExprInt'] = Kind('ExprInt', lambda v: mk('ExprInt', arg=v))
+    env['ExprCond'] = Kind('ExprCond', lambda c, a, b: mk('ExprCond', cond=c, src1=a, src2=b))
+    env['ExprCompose'] = Kind('ExprCompose', lambda l: mk('ExprCompose', args=list(l)))
+    env['ExprTop'] = Kind('ExprTop', lambda: mk('ExprTop'))
+    env['ExprSlice'] = Kind('ExprSlice', lambda a, s_, e_: mk('ExprSlice', arg=a, start=s_, stop=e_))
+    for k in ('ExprId', 'ExprMem', 'ExprOp'):
+        env[k] = Kind(k, lambda *a: mk('other'))
+    env['tab_uintsize'] = dict((n, _Nat(lambda v, n=n: v & ((1 << n) - 1))) for n in (1, 8, 16, 32, 64))
+    me = _Obj('self')
+    me.eval_expr = _Nat(lambda x, c=None: x)
+    zf = mk('ExprId', name='zf')
+
+    def const(v):
+        return mk('ExprInt', arg=v)
+
+    def cslice(v, a, b):
+        return mk('ExprSlice', arg=const(v), start=a, stop=b)
+    COND = 'cond'
+    layouts = [
+        ('cond lowest', [(COND, 0, 8), (0x123456, 8, 32)]),
+        ('cond highest', [(0x5678, 0, 16), (COND, 16, 32)]),
+        ('cond in the middle', [(0x78, 0, 8), (COND, 8, 16), (0x1234, 16, 32)]),
+        ('cond lowest, two constants above', [(COND, 0, 8), (0x56, 8, 16), (0x1234, 16, 32)]),
+        ('all constants', [(0x78, 0, 8), (0x56, 8, 16), (0x1234, 16, 32)]),
+        ('constant slice above a constant', [(0x10, 0, 8), (('slice', 0x12345678, 8, 32), 8, 32)]),
+        ('cond lowest, constant slice above', [(COND, 0, 8), (('slice', 0x12345678, 8, 32), 8, 32)]),
+    ]
+    for label, pieces in layouts:
+        args, want1, want0 = [], 0, 0
+        has_cond = False
+        for val, a, b in pieces:
+            if val == COND:
+                has_cond = True
+                args.append((mk('ExprCond', cond=zf, src1=const(1), src2=const(0)), a, b))
+                want1 |= 1 << a
+            elif isinstance(val, tuple):
+                _, v, sa, sb = val
+                args.append((cslice(v, sa, sb), a, b))
+                piece = (v >> sa) & ((1 << (sb - sa)) - 1)
+                want1 |= piece << a
+                want0 |= piece << a
+            else:
+                args.append((const(val), a, b))
+                want1 |= val << a
+                want0 |= val << a
+        e = mk('ExprCompose', args=args)
+        inst = 'eval_ExprCompose[%s]' % label
+        try:
+            r = _Ev(env).call_user(ec, [me, e, {}])
+        except _PR as ex:
+            R.violation(inst, 'compose-fold:%s:raises:%s' % (label, ex.exc_name), 'eval_ExprCompose raises %s on a composition with %s' % (ex.exc_name, label), where(ea, ec))
+            continue
+        except _NC as ex:
+            raise AnalysisError('eval_ExprCompose is outside the statically evaluable subset (%s): %s' % (label, ex))
+        kind = r.__dict__.get('_kind') if isinstance(r, _Obj) else None
+        if has_cond:
+            ok = kind == 'ExprCond' and r.cond is zf and isinst(r.src1, 'ExprInt') and isinst(r.src2, 'ExprInt') and (r.src1.arg, r.src2.arg) == (want1, want0)
+            got = '%s?(%#x,%#x)' % ('zf', r.src1.arg, r.src2.arg) if kind == 'ExprCond' and isinst(r.src1, 'ExprInt') else str(kind)
+            want = 'zf?(%#x,%#x)' % (want1, want0)
+        else:
+            ok = kind == 'ExprInt' and r.arg == want1
+            got = ('%#x' % r.arg) if kind == 'ExprInt' else str(kind)
+            want = '%#x' % want1
+        if ok:
+            R.ok(inst, sample='%s -> %s' % (label, got))
+        else:
+            R.violation(inst, 'compose-fold:%s' % label, 'eval_ExprCompose folds a composition with %s to %s; the concatenation of the pieces is %s' % (label, got, want),
+                        where(ea, ec), witness="setz al with eax = 0x12345678: eax evaluates to zf?(0x1,0x0)" if 'cond lowest' in label else None)
 
 
 MUTANTS = [
